@@ -1,6 +1,8 @@
 package main
 
 import (
+	"github.com/olive-io/bpmn/v2/pkg/tracing"
+	"time"
 	"fmt"
 	"math/rand"
 	"strings"
@@ -268,6 +270,77 @@ func runC03(env *Env) {
 				}
 			}
 		}
+	}
+	// a fork with one incoming flow activated twice back to back by two independent tokens (an upstream fork
+	// feeding it through an exclusive merge): every activation releases one token per outgoing flow
+	rounds := 15
+	if env.Thorough() {
+		rounds = 120
+	}
+	for r := 0; r < rounds && !rep.Saturated(); r++ {
+		cs := fmt.Sprintf("fork (1 incoming, 2 outgoing) reached by two tokens back to back, round %d", r)
+		env.Current(cs)
+		p := &Prog{}
+		p.Node("start", "start")
+		p.Node("par", "F0")
+		p.Node("task", "A")
+		p.Node("task", "B")
+		p.Node("task", "MT") // two incoming flows: an implicit merge, each token requests it
+		p.Node("par", "G")
+		p.Node("task", "U0")
+		p.Node("task", "U1")
+		p.Node("end", "end")
+		p.Flow("start", "F0", "")
+		p.Flow("F0", "A", "")
+		p.Flow("F0", "B", "")
+		p.Flow("A", "MT", "")
+		p.Flow("B", "MT", "")
+		p.Flow("MT", "G", "")
+		p.Flow("G", "U0", "")
+		p.Flow("G", "U1", "")
+		p.Flow("U0", "end", "")
+		p.Flow("U1", "end", "")
+		defs, err := ParseDefs(p.XML(""))
+		must(err)
+		in, err := StartInst(defs, InstOpt{})
+		must(err)
+		// a slow second subscriber: every trace takes a little longer to hand out, as with a busy observer
+		slow := in.P.Tracer().SubscribeChannel(make(chan tracing.ITrace))
+		go func() {
+			for range slow {
+				time.Sleep(time.Duration(50+25*(r%5)) * time.Microsecond)
+			}
+		}()
+		rep.Evaluations++
+		rep.Nontrivial++
+		rep.Count("fork_twice_back_to_back")
+		in.Answer("A", tmoStep)
+		in.Answer("B", tmoStep)
+		in.WaitUntil(tmoStep, func(l []Ev) bool { return countEv(l, "task", "MT") >= 2 })
+		m1, m2 := in.WaitTask("MT", tmoStep), in.WaitTask("MT", tmoStep)
+		if m1 == nil || m2 == nil {
+			rep.Violate("C03-release", cs, "the merging task was not requested twice; log: "+logString(in.Log()))
+			in.Close()
+			continue
+		}
+		go m1.Do()
+		m2.Do()
+		ok := in.WaitUntil(tmoStep, func(l []Ev) bool { return countEv(l, "task", "U0") >= 2 && countEv(l, "task", "U1") >= 2 })
+		time.Sleep(5 * time.Millisecond)
+		l := in.Log()
+		u0, u1 := countEv(l, "task", "U0"), countEv(l, "task", "U1")
+		if !ok || u0 != 2 || u1 != 2 {
+			rep.Violate("C03-release", cs, fmt.Sprintf("two activations must release 2 tokens per outgoing flow: U0 requested %d times, U1 %d times; log: %s", u0, u1, logString(l)))
+		} else {
+			for i := 0; i < 2; i++ {
+				in.Answer("U0", tmoStep)
+				in.Answer("U1", tmoStep)
+			}
+			if !in.WaitCease(tmoStep) {
+				rep.Violate("C03-release", cs, "every task answered, the instance did not complete; log: "+logString(in.Log()))
+			}
+		}
+		in.Close()
 	}
 	env.WriteCases(rep, "_engine", "Corr.C03corr", "nat * nat * list (list nat) * list (list nat)", eitems, "c03_engine_mismatches")
 	rep.Exhaustive = true
